@@ -200,7 +200,7 @@ theorem putOwner_cfg (s : Server) (c : Client) (o : Option Nat) : (s.putOwner c 
 theorem putOwner_owner (s : Server) (c : Client) (o : Option Nat) : (s.putOwner c o).owner = o := rfl
 
 /-- one `rfbProcessClientMessage` whose reads succeed -/
-theorem stepFlat_some (orc : AuthOracle) (s : Server) (i : Nat) (cl : Client) (bs : List UInt8)
+theorem stepFlat_some (orc : Oracles) (s : Server) (i : Nat) (cl : Client) (bs : List UInt8)
     (m : Msg) (rest : List UInt8) (hf : s.find i = some cl)
     (hr : (readerFor cl).runFlat bs = some (m, rest)) :
     stepFlat orc s i bs =
@@ -209,7 +209,7 @@ theorem stepFlat_some (orc : AuthOracle) (s : Server) (i : Nat) (cl : Client) (b
   simp [stepFlat, hf, hr]
 
 /-- ... and one whose read times out -/
-theorem stepFlat_timeout (orc : AuthOracle) (s : Server) (i : Nat) (cl : Client) (bs : List UInt8)
+theorem stepFlat_timeout (orc : Oracles) (s : Server) (i : Nat) (cl : Client) (bs : List UInt8)
     (hf : s.find i = some cl) (hr : (readerFor cl).runFlat bs = none) :
     stepFlat orc s i bs = (s.putOwner (closeCl cl) s.owner, [], []) := by
   simp [stepFlat, hf, hr]
@@ -218,31 +218,75 @@ theorem stepFlat_timeout (orc : AuthOracle) (s : Server) (i : Nat) (cl : Client)
 
 theorem handleNormal_id (cfg : Cfg) (o : Option Nat) (cl : Client) (m : Msg) :
     (handleNormal cfg o cl m).1.id = cl.id := by
-  cases m <;> simp only [handleNormal, ptrDeliver, closeCl, setScale, handleExtClip] <;>
+  cases m <;> simp only [handleNormal, ptrDeliver, closeCl, setScale] <;>
     (repeat' split) <;> rfl
 
-theorem handleHs_id (orc : AuthOracle) (cfg : Cfg) (cl : Client) (m : Msg) :
+theorem handleHs_id (orc : Oracles) (cfg : Cfg) (cl : Client) (m : Msg) :
     (handleHs orc cfg cl m).id = cl.id := by
   cases m <;> simp only [handleHs, closeCl] <;> (repeat' split) <;> rfl
 
-theorem handle_id (orc : AuthOracle) (cfg : Cfg) (o : Option Nat) (cl : Client) (m : Msg) :
+theorem provideLoop_nodeliver (id flags : Nat) (is : List Nat) : ∀ (s : List UInt8),
+    (provideLoop false id flags is s).2.2 = [] := by
+  induction is with
+  | nil => intro s; rfl
+  | cons i is ih =>
+    intro s
+    simp only [provideLoop]
+    (repeat' split) <;> simp_all
+
+theorem handleExtClip_id (inf : List UInt8 → Option (List UInt8)) (cfg : Cfg) (cl : Client)
+    (p : List UInt8) : (handleExtClip inf cfg cl p).1.id = cl.id := by
+  simp only [handleExtClip, closeCl]
+  (repeat' split) <;> rfl
+
+theorem handleExtClip_viewOnly (inf : List UInt8 → Option (List UInt8)) (cfg : Cfg) (cl : Client)
+    (p : List UInt8) (hv : cl.viewOnly = true) :
+    (handleExtClip inf cfg cl p).2 = [] ∧ (handleExtClip inf cfg cl p).1.viewOnly = true := by
+  simp only [handleExtClip, closeCl, hv, Bool.not_true, Bool.false_and, provideLoop_nodeliver]
+  (repeat' split) <;> simp_all
+
+theorem handle_id (orc : Oracles) (cfg : Cfg) (o : Option Nat) (cl : Client) (m : Msg) :
     (handle orc cfg o cl m).1.id = cl.id := by
   unfold handle
   split
-  · exact handleNormal_id cfg o cl m
+  · split
+    · exact handleExtClip_id _ cfg cl _
+    · exact handleNormal_id cfg o cl m
   · exact handleHs_id orc cfg cl m
 
+/-- outside the extended-clipboard message, RFB_NORMAL handling is `handleNormal` -/
+theorem handle_normal (orc : Oracles) (cfg : Cfg) (o : Option Nat) (cl : Client) (m : Msg)
+    (hn : cl.st = .normal) (hm : ∀ p, m ≠ .cutTextExt p) :
+    handle orc cfg o cl m = handleNormal cfg o cl m := by
+  cases m <;> first
+    | exact absurd rfl (hm _)
+    | simp [handle, hn]
+
 /-- a view-only client never causes a callback and stays view-only, whatever it sends -/
-theorem handle_viewOnly (orc : AuthOracle) (cfg : Cfg) (o : Option Nat) (cl : Client) (m : Msg)
+theorem handle_viewOnly (orc : Oracles) (cfg : Cfg) (o : Option Nat) (cl : Client) (m : Msg)
     (hv : cl.viewOnly = true) :
     (handle orc cfg o cl m).2.2 = [] ∧ (handle orc cfg o cl m).1.viewOnly = true := by
-  unfold handle
-  split
-  · cases m <;> simp only [handleNormal, ptrDeliver, closeCl, setScale, handleExtClip, hv] <;>
-      (repeat' split) <;> simp_all
-  · cases m <;> simp only [handleHs, closeCl] <;> (repeat' split) <;> simp_all
+  by_cases hn : cl.st = .normal
+  · by_cases hm : ∃ p, m = .cutTextExt p
+    · obtain ⟨p, rfl⟩ := hm
+      have e : handle orc cfg o cl (.cutTextExt p) =
+          ((handleExtClip orc.inflate cfg cl p).1, o, (handleExtClip orc.inflate cfg cl p).2) := by
+        simp [handle, hn]
+      rw [e]
+      exact handleExtClip_viewOnly _ cfg cl _ hv
+    · rw [handle_normal orc cfg o cl m hn (fun p h => hm ⟨p, h⟩)]
+      clear hm
+      cases m <;> simp only [handleNormal, ptrDeliver, closeCl, setScale, hv] <;>
+        (repeat' split) <;> simp_all
+  · have e : handle orc cfg o cl m = (handleHs orc cfg cl m, o, []) := by
+      unfold handle
+      split
+      · next h => exact absurd h hn
+      · rfl
+    rw [e]
+    cases m <;> simp only [handleHs, closeCl] <;> (repeat' split) <;> simp_all
 
-theorem processFlat_nil (orc : AuthOracle) (fuel : Nat) (s : Server) (i : Nat) :
+theorem processFlat_nil (orc : Oracles) (fuel : Nat) (s : Server) (i : Nat) :
     processFlat orc fuel s i [] = (s, []) := by
   cases fuel <;> simp [processFlat]
 
@@ -280,7 +324,7 @@ theorem readerFor_consumes (cl : Client) (bs : List UInt8) (m : Msg) (rest : Lis
 
 /-! ## segmentation, lifted to whole connections -/
 
-theorem stepChunks_flat (orc : AuthOracle) (s : Server) (i : Nat) (arr : List UInt8)
+theorem stepChunks_flat (orc : Oracles) (s : Server) (i : Nat) (arr : List UInt8)
     (pend : List (List UInt8)) :
     (fun r => (r.1, r.2.1, flat r.2.2.1 r.2.2.2)) (stepChunks orc s i arr pend) =
       stepFlat orc s i (flat arr pend) := by
@@ -302,7 +346,7 @@ theorem stepChunks_flat (orc : AuthOracle) (s : Server) (i : Nat) (arr : List UI
       simp only [Option.map_some] at h
       rw [← h]
 
-theorem processChunks_flat (orc : AuthOracle) : ∀ (fuel : Nat) (s : Server) (i : Nat)
+theorem processChunks_flat (orc : Oracles) : ∀ (fuel : Nat) (s : Server) (i : Nat)
     (arr : List UInt8) (pend : List (List UInt8)),
     processChunks orc fuel s i arr pend = processFlat orc fuel s i (flat arr pend) := by
   intro fuel
